@@ -43,6 +43,32 @@ func (c *Ctx) checkRetSpec(s retSpec) {
 	c.touch(s.Fn)
 	leaves := ReturnLeaves(s.Fn, -1)
 	nNil, nDel, nDeny := 0, 0, 0
+	// the tail of a checker may be shared with another one through a private helper
+	// (return requireAuthenticated(r, ucred, user, action)): the helper's returns are classified like
+	// the checker's own, gates being looked for on the whole path from the checker's entry
+	var opt *GOpt
+	for qi := 0; qi < len(leaves); qi++ {
+		lf := leaves[qi]
+		if hc, hi, ok := CallResult(lf.Val); ok && opt == nil {
+			h := hc.Common().StaticCallee()
+			known := false
+			for _, d := range s.Delegates {
+				known = known || d.M(hc)
+			}
+			if s.Deny != nil && s.Deny(hc) {
+				known = true
+			}
+			if !known && h != nil && h.Pkg == s.Fn.Pkg && len(h.Blocks) > 0 && descendable(s.Fn, hc.(ssa.Instruction), nil) == h && hi == h.Signature.Results().Len()-1 {
+				c.touch(h)
+				liftCtx = append(liftCtx, liftFrame{h, hc})
+				defer func() { liftCtx = liftCtx[:len(liftCtx)-1] }()
+				leaves = append(append(append([]FlowPoint{}, leaves[:qi]...), ReturnLeaves(h, -1)...), leaves[qi+1:]...)
+				opt = &GOpt{Deep: true}
+				qi--
+				continue
+			}
+		}
+	}
 	for i, lf := range leaves {
 		construct := fmt.Sprintf("%s#return-leaf", name)
 		switch {
@@ -53,7 +79,7 @@ func (c *Ctx) checkRetSpec(s retSpec) {
 				c.Violated(construct, lf.Pos(), "this checker must never return nil by itself (it delegates), but a nil constant is returned")
 				continue
 			}
-			c.GuardedFlow(construct, s.Fn, lf, s.NilGates, nil)
+			c.GuardedFlow(construct, s.Fn, lf, s.NilGates, opt)
 		default:
 			done := false
 			if ci, _, ok := CallResult(lf.Val); ok {
@@ -64,7 +90,7 @@ func (c *Ctx) checkRetSpec(s retSpec) {
 						if len(d.Gates) == 0 {
 							c.Holds(construct, lf.Pos(), "verdict delegated to "+d.Name+" (decided by its own rule)")
 						} else {
-							c.GuardedFlow(construct, s.Fn, lf, d.Gates, nil)
+							c.GuardedFlow(construct, s.Fn, lf, d.Gates, opt)
 						}
 						done = true
 						break
@@ -529,6 +555,17 @@ func runC26(c *Ctx) {
 func (c *Ctx) argIsParam(fn *ssa.Function, m CallM, argIdx, paramIdx int, what string) {
 	calls := CallsMatching(fn, m)
 	construct := SSAFuncName(fn) + "#passes-" + what
+	if len(calls) == 0 {
+		// the delegate may be called from a private helper that fn hands its own arguments to
+		for _, hc := range localCalls(fn) {
+			if hcs := CallsMatching(hc.h, m); len(hcs) > 0 {
+				liftCtx = append(liftCtx, liftFrame{hc.h, hc.cc})
+				defer func() { liftCtx = liftCtx[:len(liftCtx)-1] }()
+				calls = hcs
+				break
+			}
+		}
+	}
 	if len(calls) == 0 {
 		c.Undecided(construct, fn.Pos(), "delegate call not found")
 		return
